@@ -2,7 +2,7 @@
 SPECIFICATION SpecMC
 CONSTANTS
   Classes = {"g", "gb", "gi", "u", "uk"}
-  OptSets = {"default", "flatten", "keepdir", "noprod", "decompose", "tristate", "dtc", "debg"}
+  OptSets = {"default", "flatten", "keepdir", "noprod", "decompose", "tristate", "dtc"}
   FormatOps = {"indent", "flow", "keyorder", "quote", "num", "eol"}
   MaxLen = 0
   MinCompiles = 0
